@@ -23,6 +23,22 @@ def lattice(n):
     return sorted({-x for x in pts} | pts)
 
 
+def huge_lattice(p):
+    """Values far outside any bitlength, for the operations that accept them (linear arithmetic,
+    products, exact division, zero tests): machine-word boundaries and the field's own boundary."""
+    pts = [0, 1, 3, 2 ** 31 - 1, 2 ** 32 + 1, 2 ** 63 - 1, 2 ** 64 + 3, 2 ** 127 + 5, p - 1, p, p + 2, 2 ** 256 + 7]
+    return sorted({-x for x in pts} | set(pts))
+
+
+HUGE_OPS = ("add", "sub", "mul", "truediv", "eq", "ne", "neg", "pos", "check_zero", "check_nonzero", "if_then_else", "if_else",
+            "assert_eq", "assert_ne", "assert_zero", "assert_nonzero")
+
+
+def huge_programs():
+    return [pr for pr in depth1_programs() if pr["expr"][1] in HUGE_OPS and "B" not in pr["kinds"][1:] or
+            (pr["expr"][1] in ("if_then_else", "if_else") and pr["kinds"] == ["B", "S", "S"])]
+
+
 def kind_domain(kind, vals):
     if kind == "B":
         return [0, 1]
